@@ -75,11 +75,13 @@ def reGroupNames : Re → List Str
 def groupdict (r : Re) (m : Match) : FVals :=
   (reGroupNames r).eraseDups.map (fun n => (n, m.group n))
 
-/-- `int(fvals[k]) if k in fvals else None`; `int(None)` is a TypeError -/
+/-- `int(fvals[k]) if k in fvals else None`.  `parse_version_info` hands over only the groups that took part in
+    the match (a part inside an omitted optional group is ABSENT, not None: v2version.py after the C09 repair of
+    the `int(None)` TypeError), so a `none` entry reads like a missing key. -/
 def intField (fv : FVals) (k : String) : Except PErr (Option Nat) :=
   match lookup k.toList fv with
   | none => .ok none
-  | some none => .error .typeError
+  | some none => .ok none
   | some (some s) => .ok (some (strToNat s))
 
 def truthy : Option Nat → Bool
@@ -162,7 +164,7 @@ def parseVinfo (fv : FVals) (today : Nat × Nat × Nat) : Except PErr VInfo := d
   let bid ← match lookup "bid".toList fv with
     | none => pure "1000".toList
     | some (some s) => pure s
-    | some none => throw .unsupported        -- BUILD inside an omitted optional group: bid = None
+    | some none => pure "1000".toList        -- BUILD inside an omitted optional group: absent, hence the default
   pure { cal := cal, major := intFieldOr fv "major" 0, minor := intFieldOr fv "minor" 0,
          patch := intFieldOr fv "patch" 0, bid := bid, tag := tag, pytag := pytag1,
          num := intFieldOr fv "num" 0, inc0 := intFieldOr fv "inc0" 0, inc1 := intFieldOr fv "inc1" 1 }
